@@ -252,3 +252,76 @@ Theorem rollback_partial_covered ord s u0 es k st cur done :
   ms_pending st = [] -> covered_point cur done ->
   rollback ord (length u0) st = Some s.
 Proof. intros Hw. apply rollback_covered. apply Inv_init. exact Hw. Qed.
+(* ---------------------------------------------------------------------------------------------------------- *)
+(* the repaired BulkUpdateRecord: every crash point inside it is rolled back by the undo it appended first *)
+Definition cellstep2 (t : name) (rows : list rowid) (cs : list name) (m : mstep) : Prop :=
+  exists c r v, m = MSetCell t c r v /\ r ∈ rows /\ c ∈ cs.
+
+Definition CellPres2 (rows : list rowid) (cs : list name) (F : table -> table) : Prop :=
+  CellPres rows F /\ forall tb c, c ∉ cs -> t_cols (F tb) !! c = t_cols tb !! c.
+
+Lemma exec_cellsteps2 t rows cs l : Forall (cellstep2 t rows cs) l -> forall st,
+  exists F, CellPres2 rows cs F /\ exec_all st l = Some (on_doc (upd_table t F) st).
+Proof.
+  induction 1 as [|m l (c & r & v & -> & Hr & Hc) _ IH]; intros st.
+  - exists (fun tb => tb). split; [split; [apply CellPres_id|reflexivity]|]. simpl. f_equal. symmetry. apply on_doc_upd_table_id. reflexivity.
+  - simpl. destruct (IH (on_doc (upd_table t (upd_col c (fun col => cset col r v))) st)) as (F & [HF1 HF2] & Hex).
+    exists (fun tb => F (upd_col c (fun col => cset col r v) tb)). split.
+    + split; [apply CellPres_compose; [apply CellPres_step; exact Hr|exact HF1]|].
+      intros tb c0 Hc0. rewrite HF2 by exact Hc0. unfold upd_col. simpl. apply lookup_alter_ne. intros ->. contradiction.
+    + rewrite Hex. f_equal. rewrite on_doc_on_doc. unfold on_doc. simpl. f_equal. apply upd_table_compose.
+Qed.
+
+Lemma cell_steps_cellstep2 t rows vals m :
+  m ∈ concat (map (cell_steps t rows) vals) -> cellstep2 t rows vals.*1 m.
+Proof.
+  intros H. apply elem_of_list_In, in_concat in H as (l & Hl & Hm). apply in_map_iff in Hl as (cv & <- & Hcv).
+  unfold cell_steps in Hm. apply in_map_iff in Hm as ([r v] & <- & Hrv). exists cv.1, r, v. split; [reflexivity|]. split.
+  - apply elem_of_list_In in Hrv. eapply zip_fst_in. apply elem_of_list_fmap. exists (r, v). split; [reflexivity|exact Hrv].
+  - apply elem_of_list_fmap. exists cv. split; [reflexivity|apply elem_of_list_In; exact Hcv].
+Qed.
+
+Theorem update_repaired_rolled_back ord d t rows vals u p l rest st' :
+  wf d -> update_repaired d t rows vals = l ++ rest -> l ≠ [] ->
+  exec_all (MState d u p None) l = Some st' ->
+  exists a, ms_undo st' = u ++ [a] /\ ms_pending st' = p /\ ms_saved st' = None /\
+            apply_doc ord (ms_doc st') a = Some d.
+Proof.
+  intros Hw Hsteps Hl Hex. unfold update_repaired in Hsteps.
+  destruct (d_tables d !! t) as [tb|] eqn:Ht.
+  2: { destruct l as [|m l]; [contradiction|]. simpl in Hsteps. injection Hsteps as <- _. simpl in Hex. discriminate. }
+  destruct (wf_schema_of_table _ _ _ Hw Ht) as (sc & Hs & Hwt).
+  destruct (bool_decide (Forall _ rows)) eqn:Er.
+  2: { destruct l as [|m l]; [contradiction|]. simpl in Hsteps. injection Hsteps as <- _. simpl in Hex. discriminate. }
+  apply bool_decide_eq_true in Er. unfold update_steps_repaired in Hsteps.
+  destruct (bool_decide (length (known_prefix tb vals) = length vals)) eqn:Ek.
+  2: { destruct l as [|m l]; [contradiction|]. simpl in Hsteps. injection Hsteps as <- _. simpl in Hex. discriminate. }
+  apply bool_decide_eq_true in Ek. apply known_prefix_len in Ek.
+  fold (update_undo tb rows vals) in Hsteps.
+  destruct l as [|m1 m]; [contradiction|]. simpl in Hsteps. injection Hsteps as <- Hsteps. simpl in Hex.
+  assert (Hcells : Forall (cellstep2 t rows vals.*1) m).
+  { apply Forall_forall. intros x Hx. apply cell_steps_cellstep2. rewrite Hsteps. apply elem_of_app. left. exact Hx. }
+  destruct (exec_cellsteps2 t rows vals.*1 m Hcells (MState d (u ++ [BulkUpdateRecord t rows (update_undo tb rows vals)]) p None))
+    as (F & [HF1 HF2] & HexF).
+  rewrite HexF in Hex. injection Hex as <-. eexists. split; [reflexivity|]. split; [reflexivity|]. split; [reflexivity|].
+  simpl. rewrite (upd_table_tset _ _ _ _ Ht). destruct (HF1 tb) as (F1 & F2 & F3).
+  assert (Hrin : forall r, r ∈ rows -> r ∈ t_rows tb) by (intros r; rewrite Forall_forall in Er; apply Er).
+  rewrite apply_doc_unfold. simpl normalize.
+  rewrite (exec_update_ok ord (tset t (F tb) d) t (F tb)); [|apply tset_lookup|rewrite F1; exact Er|].
+  2: { apply Forall_forall. intros cv Hcv. apply update_undo_in in Hcv as (col & Hc & _). unfold known.
+       assert (Hin : cv.1 ∈ dom (t_cols (F tb))) by (rewrite F2; apply elem_of_dom; eauto). apply elem_of_dom in Hin. exact Hin. }
+  simpl. f_equal. rewrite tset_tset. apply tset_id. rewrite Ht. f_equal. symmetry.
+  apply (table_restore sc tb _ (t_rows tb) Hwt).
+  - rewrite write_cols_rows. exact F1.
+  - rewrite write_cols_dom. exact F2.
+  - intros c col col2 Hc H2. rewrite write_cols_lookup in H2.
+    destruct (t_cols (F tb) !! c) as [colk|] eqn:Hk; [|discriminate]. simpl in H2. injection H2 as <-.
+    destruct (F3 c col colk Hc Hk) as (A1 & A2 & A3). destruct (wf_table_col _ _ _ _ Hwt Hc) as [_ Hwc].
+    split; [rewrite col_writes_info; exact A1|]. split; [apply col_writes_wf; [apply A2; assumption|exact Hrin]|].
+    intros r. destruct (decide (r ∈ rows)) as [Hin|Hnin]; [|rewrite col_writes_other by exact Hnin; apply A3; exact Hnin].
+    destruct (decide (c ∈ vals.*1)) as [Hcv|Hcv].
+    + apply (col_writes_restores c rows (cget col)); [rewrite update_undo_fst by exact Ek; exact Hcv| |exact Hin].
+      intros cv Hcvin Hcv1. apply update_undo_in in Hcvin as (col0 & Hc0 & ->). rewrite Hcv1, Hc in Hc0. congruence.
+    + rewrite col_writes_notin by (rewrite update_undo_fst by exact Ek; exact Hcv).
+      rewrite (HF2 tb c Hcv), Hc in Hk. injection Hk as <-. reflexivity.
+Qed.
